@@ -165,6 +165,11 @@ def run(chk):
         cfgs.append(dict(order=order, att={'a': ['b'], 'b': []}, wrong=[], fail={'a': 'none', 'b': 'none'}, polls=['a', 'b'],
                          writes=[], acc={'a': 'init', 'b': 'init'}, exported=['a', 'b'], polldur={'a': 0.3},
                          host={'a': 'b', 'b': 'b'}))
+    # a first poll that hangs: the node reports ready when the start time-out (30 s) has passed, and the shutdown
+    # proceeds after its grace period although that poll is still running
+    for order in (['a', 'b'], ['b', 'a']):
+        cfgs.append(dict(order=order, att={'a': [], 'b': []}, wrong=[], fail={'a': 'none', 'b': 'none'}, polls=['a', 'b'],
+                         writes=['b'], acc={'a': 'init', 'b': 'init'}, exported=['a', 'b'], polldur={'a': 45.0}))
     traces = pool_map(_run, cfgs)
     # thread schedules: the server thread (start loop, start events, shutdown) against the poll threads
     jobs = []
